@@ -228,12 +228,31 @@ class Gen:
         self.classes.add("markup-chars")
         if "-->" in special:
           self.classes.add("arrow-in-text")
+    if self.p.get("p_uspace", 0) and rng.random() < self.p["p_uspace"]:
+      # Unicode spaces that are NOT XML white space (never collapsed, never a reason to drop an adjacent XML space)
+      u = rng.choice(["\u00a0", "\u3000", "\u2003", "\u2009"])
+      k = rng.randrange(len(toks))
+      toks[k] = (u + toks[k]) if rng.random() < 0.3 else (toks[k] + u)
+      self.classes.add("unicode-space")
+      if rng.random() < 0.6:
+        # the text ends with the Unicode space and the next text node starts with an XML space (which must survive)
+        toks[-1] = toks[-1].rstrip(u) + u
+        self._lead_space = 2
     if rng.random() < self.p["p_ws"]:
       seps = [" ", "  ", "\t", "\n", " \n ", "   "]
       s = rng.choice(["", " ", "\n", "  "]) + rng.choice(seps).join(toks) + rng.choice(["", " ", "\n ", "  "])
       self.classes.add("ws-varied")
     else:
       s = " ".join(toks)
+    lead = getattr(self, "_lead_space", 0)
+    if lead == 2:
+      s = s.rstrip(" \t\n")
+      self._lead_space = 1
+      return AbsEl("Text", text=s)
+    if lead == 1:
+      s = " " + s.lstrip(" \t\n")
+      self._lead_space = 0
+      return AbsEl("Text", text=s)
     if rng.random() < 0.04:
       s = rng.choice(["", " ", "\n"])
       self.classes.add("blank-text")
